@@ -460,7 +460,7 @@ def check_C20(ctx):
     except Exception as ex:
         ctx.notes.append("kgen scripts unavailable (%s); only gen/geogen.py meshes were used" % str(ex)[:300])
     gs = geogen.mesh_scripts(ctx.seed, True)
-    scripts.update({k: v for i, (k, v) in enumerate(gs.items()) if ctx.quick() is False or i % 3 == 0})
+    scripts.update({k: v for i, (k, v) in enumerate(gs.items()) if ctx.quick() is False or i % 5 == 0})   # 5 is coprime to the 12 shapes: every shape (n-gons included) occurs
     scripts.update(geogen.conc_scripts(ctx.seed, 16 if ctx.quick() else 200))
     path = os.path.join(RUN, "C20-conc-%d.scripts" % ctx.seed)
     write_scripts(path, scripts)
